@@ -49,7 +49,7 @@ def post(ctx, behs):
 
 def run(ctx, replay):
     c01.run_queue(ctx, replay, "C18", lambda v: v in MINE, DIMS,
-                  {"known": known, "post": post, "gen_dims": GEN_DIMS, "maxlist_thorough": 2})
+                  {"known": known, "post": post, "gen_dims": GEN_DIMS, "maxlist_thorough": 2, "thorough_cap": 40000})
     ctx.cov["rule"] = ctx.cov.get("rule", "") + "; report dimensions on (rewritten recipients, SMTPUTF8, hand-over failing at each stage, chained queue)"
 
 
